@@ -4,6 +4,7 @@ import OW.Proofs.HotStartLag
 import OW.Proofs.HotStartGR4J
 import OW.Proofs.HotStartStorage
 import OW.Proofs.HotStartSacramento
+import OW.Proofs.HotStartFineSediment
 import OW.Proofs.RealNum
 import OW.Kernels.Registry
 /-!
@@ -262,7 +263,7 @@ def FineSedimentSplitOk (p _st s : List α) : Prop :=
 negative store handed over at a split point would be converted while the uninterrupted run keeps it. Proved: hot-start
 continuity for every split at which that conversion does not fire (`FineSedimentSplitOk`). For physically meaningful
 parameters (maximum storage ≥ 0) the store never becomes negative after the first conversion — see
-`fineSediment_store_nonneg` below (ℝ). -/
+`hotstart_InstreamFineSediment_real` below (ℝ). -/
 theorem hotstart_InstreamFineSediment_partial :
     HotStartWhen (InstreamFineSediment.model (α := α)) FineSedimentSplitOk := by
   intro p a b st n₁ n₂ o₁ o₂ hl ha hb h₁ h₂ hc
@@ -664,5 +665,114 @@ theorem hotstart_Sacramento_partial : HotStartWhen (Sacramento.model (α := ℝ)
         obtain ⟨t1, t2, t3, t4, t5, t6, _, _⟩ := this
         simp only [t1, t2, t3, t4, t5, t6]
 end Sacramento
+
+/-! ### InstreamFineSediment (ℝ) -/
+section FineSediment
+open OW.C12
+
+/-- physically meaningful channel geometry: the maximum fine-sediment storage of the reach is not negative -/
+def FineSedimentMaxStorageNonneg (p _st _s : List ℝ) : Prop :=
+  ∀ bff vfl fpa lw ll ls bh pbh sbd mn vs vr dt : ℝ, p = [bff, vfl, fpa, lw, ll, ls, bh, pbh, sbd, mn, vs, vr, dt] →
+    0 ≤ InstreamFineSediment.maxStorage (⟨bff, vfl, fpa, lw, ll, ls, bh, pbh, sbd, mn, vs, vr, dt⟩ : InstreamFineSediment.Params ℝ)
+
+/-- the channel store handed over at a split point is never negative when the maximum storage is not negative
+(`OW.Proofs.FineHot.run_store_nonneg`), so hot-start continuity holds for every split (ℝ) -/
+theorem hotstart_InstreamFineSediment_real :
+    HotStartWhen (InstreamFineSediment.model (α := ℝ)) FineSedimentMaxStorageNonneg := by
+  intro p a b st n₁ n₂ o₁ o₂ hl ha hb h₁ h₂ hD
+  refine hotstart_InstreamFineSediment_partial p a b st n₁ n₂ o₁ o₂ hl ha hb h₁ h₂ ?_
+  unfold InstreamFineSediment.model at h₁
+  simp only at h₁
+  match p, a, st, h₁ with
+  | [bff, vfl, fpa, lw, ll, ls, bh, pbh, sbd, mn, vs, vr, dt], [a1, a2, a3, a4, a5], [csf, tsm], h₁ =>
+    simp only [Except.ok.injEq] at h₁
+    subst h₁
+    have hm := hD bff vfl fpa lw ll ls bh pbh sbd mn vs vr dt rfl
+    cases hlum : InstreamFineSediment.lumped (⟨bff, vfl, fpa, lw, ll, ls, bh, pbh, sbd, mn, vs, vr, dt⟩ : InstreamFineSediment.Params ℝ) with
+    | true =>
+      left
+      refine ⟨bff, _, rfl, ?_⟩
+      simpa [InstreamFineSediment.lumped] using hlum
+    | false =>
+      right
+      refine ⟨_, _, rfl, ?_⟩
+      have := OW.Proofs.FineHot.run_store_nonneg _ hm hlum (csf, tsm) (zip5 a1 a2 a3 a4 a5)
+      have h0 : (0.0 : ℝ) = 0 := by norm_num
+      rw [h0]
+      exact not_lt.mpr this
+end FineSediment
+
+/-! ### InstreamDissolvedNutrientDecay: counter-example (ℝ) -/
+section Dissolved
+open OW.C12
+
+/-- one decay step of the counter-example: stored mass 0, no point source, unit channel, uptake velocity 0, no outflow,
+upstream load 1: everything goes downstream when the mean volume is positive (decay coefficient 0), and the fraction
+exp(-1000) when it is zero (the "dry" decay coefficient 1000). -/
+theorem dissolved_step_eval (pv vol : ℝ) :
+    (InstreamDissolvedNutrient.step (α := ℝ) 0 0 1 1 1 0 86400 1 pv (1, 0, vol, 0)).2.downstream =
+      if 0 < min 1 ((vol + pv) / 2) then 1 else Real.exp (-1000) := by
+  unfold InstreamDissolvedNutrient.step
+  simp only
+  realnum
+  norm_num
+  rw [if_neg (not_le.mpr (Real.exp_pos _))]
+  by_cases h : 0 < vol + pv <;> simp only [h, if_true, if_false, Real.exp_zero]
+
+/-- every branch of the decay step stores the current reach volume as the next `prevVolume` -/
+theorem dissolved_step_state (sm ps lh lw ll uv dur tsd pv up lat vol out : ℝ) :
+    (InstreamDissolvedNutrient.step (α := ℝ) sm ps lh lw ll uv dur tsd pv (up, lat, vol, out)).1 = vol := by
+  unfold InstreamDissolvedNutrient.step
+  simp only
+  split_ifs <;> rfl
+
+/-- the decay-enabled branch of the kernel model, as an equation -/
+theorem dissolved_run_on (dd psl lh lw ll uv dur sm v0 : ℝ) (up lat vt out fp : List ℝ) (hdd : ¬ dd < (0.5 : ℝ)) :
+    ∃ tags, (InstreamDissolvedNutrient.model (α := ℝ)).run [dd, psl, lh, lw, ll, uv, dur] [up, lat, v0 :: vt, out, fp] [sm] =
+      .ok { outputs :=
+              [(scan (InstreamDissolvedNutrient.step sm (psl / 31557600) lh lw ll uv dur (86400 / dur)) v0 (zip4 up lat (v0 :: vt) out)).2.map
+                  (fun o => o.decayed.getD Num.zero),
+               (scan (InstreamDissolvedNutrient.step sm (psl / 31557600) lh lw ll uv dur (86400 / dur)) v0 (zip4 up lat (v0 :: vt) out)).2.map
+                  (·.downstream),
+               zeros up.length,
+               (scan (InstreamDissolvedNutrient.step sm (psl / 31557600) lh lw ll uv dur (86400 / dur)) v0 (zip4 up lat (v0 :: vt) out)).2.map
+                  (fun o => o.pointSource.getD Num.zero)],
+            states := [sm], tags := tags } := by
+  unfold InstreamDissolvedNutrient.model
+  simp only
+  rw [if_neg hdd]
+  exact ⟨_, rfl⟩
+
+/-- **Counter-example** (known finding KF-C06-InstreamDissolvedNutrientDecay-prevVolume), ℝ: decay enabled, unit channel,
+uptake velocity 0, no outflow, upstream load 1 at both steps, reach volume 1 then 0. Uninterrupted run: the second step
+averages the volumes 0 and 1 (`prevVolume = 1`), depth 0.5 > 0, nothing decays, 1 goes downstream. Split run: the second
+call re-seeds `prevVolume` from its own first volume 0, depth 0, "dry" decay coefficient 1000, exp(-1000) goes downstream. -/
+theorem hotstart_InstreamDissolvedNutrientDecay_counterexample :
+    ¬ HotStart (InstreamDissolvedNutrient.model (α := ℝ)) := by
+  intro h
+  have hdd : ¬ (1 : ℝ) < 0.5 := by norm_num
+  obtain ⟨t1, h1⟩ := dissolved_run_on 1 0 1 1 1 0 86400 0 1 [1] [0] [] [0] [0] hdd
+  obtain ⟨t2, h2⟩ := dissolved_run_on 1 0 1 1 1 0 86400 0 0 [1] [0] [] [0] [0] hdd
+  obtain ⟨t3, h3⟩ := dissolved_run_on 1 0 1 1 1 0 86400 0 1 [1, 1] [0, 0] [0] [0, 0] [0, 0] hdd
+  obtain ⟨o, ho, hout, _⟩ := h [1, 0, 1, 1, 1, 0, 86400] [[1], [0], [1], [0], [0]] [[1], [0], [0], [0], [0]] [0] 1 1 _ _ rfl
+    (by intro s hs; simp at hs; rcases hs with rfl | rfl | rfl | rfl | rfl <;> rfl)
+    (by intro s hs; simp at hs; rcases hs with rfl | rfl | rfl | rfl | rfl <;> rfl) h1 h2
+  simp only [catSeries, List.zipWith_cons_cons, List.zipWith_nil_right, List.cons_append, List.nil_append] at ho hout
+  rw [h3] at ho
+  simp only [Except.ok.injEq] at ho
+  subst ho
+  simp only [List.cons.injEq, and_true] at hout
+  have e := hout.2.1
+  have c1 : (86400 : ℝ) / 86400 = 1 := by norm_num
+  have c2 : (0 : ℝ) / 31557600 = 0 := by norm_num
+  simp only [zip4, scan, List.map_cons, List.map_nil, c1, c2, dissolved_step_eval, List.cons.injEq, and_true] at e
+  rw [dissolved_step_state] at e
+  have k1 : (0:ℝ) < min 1 ((0 + 1) / 2) := by norm_num
+  have k2 : ¬ (0:ℝ) < min 1 ((0 + 0) / 2) := by norm_num
+  simp only [List.cons_append, List.nil_append, List.cons.injEq, and_true, if_pos k1, if_neg k2] at e
+  have : Real.exp (-1000) < 1 := by
+    rw [← Real.exp_zero]; exact Real.exp_lt_exp.mpr (by norm_num)
+  linarith [e.2]
+end Dissolved
 
 end OW.Props.C06
